@@ -82,6 +82,13 @@ def directoryIndex (path : Bytes) (site : String) : Outcome Bytes :=
   | none => .panic site
   | some c => .ok (if c ≠ 47 then slashIndexHtml else indexHtml)
 
+/-- `metadata(path)` succeeds and `is_file()`: the directory index and the `.html` fallback
+    have to be regular files (F46) -/
+def isRegularFile (t : Tree) (path : Bytes) : Bool :=
+  match metadata t path with
+  | some md => md.isFile
+  | none => false
+
 /-- `is_matching` of the production chain -/
 def isMatching (ctx : Ctx) (req : Request) : Outcome Bool :=
   if req.method ≠ methodGet && req.method ≠ methodHead && req.method ≠ methodOptions then .ok false
@@ -98,7 +105,7 @@ def isMatching (ctx : Ctx) (req : Request) : Outcome Bool :=
           | some md =>
             if md.isDir then
               match directoryIndex comps.path Sites.staticMatchLastUnwrap with
-              | .ok di => .ok (some (canOpen ctx.tree (staticPath ++ di)))
+              | .ok di => .ok (some (isRegularFile ctx.tree (staticPath ++ di)))
               | .err => .err
               | .panic s => .panic s
             else .ok none
@@ -112,7 +119,7 @@ def isMatching (ctx : Ctx) (req : Request) : Outcome Bool :=
           let matchingMethod := req.uri ≠ [47]
           if canOpen ctx.tree staticPath || isDirWithIndex then .ok matchingMethod
           else if endsWith staticPath dotHtml then .ok false
-          else .ok (canOpen ctx.tree (ctx.cwd ++ comps.path ++ dotHtml) && matchingMethod)
+          else .ok (isRegularFile ctx.tree (ctx.cwd ++ comps.path ++ dotHtml) && matchingMethod)
 
 /-- `is_matching_request` of the legacy chain: the raw request target is the path -/
 def isMatchingLegacy (ctx : Ctx) (req : Request) : Bool :=
@@ -175,9 +182,11 @@ def contentRangeList (ctx : Ctx) (uri : Bytes) (rangeValue : Bytes) : Outcome Li
                 let dir := match splitOnce staticPath.reverse [47] with
                   | some (_, p) => p.reverse
                   | none => []
+                -- `resolve_symlink_path` is an Err for a relative target that climbs above `/`: 500 (F41);
+                -- a resolved text without a leading slash is opened relative to the working directory
                 match resolveSymlinkPath (pointsTo.length + 2) dir pointsTo with
-                | some p => .ok (some p)
-                | none => .panic Sites.rangeListResolveUnwrap
+                | some p => .ok (some (if p.head? = some 47 then p else ctx.cwd ++ [47] ++ p))
+                | none => .ok none
             else .ok (some staticPath)
           match path with
           | .panic s => .panic s
